@@ -292,7 +292,7 @@ def last_flag(ops, f):
 
 def check_built(ck, bcases, bresults):
     """Python-level statement of the property for built values; returns counters."""
-    n = 0
+    n = n_bad = 0
     images = {}
     for c, r in zip(bcases, bresults):
         if r.get("panic") or r.get("crash"):
@@ -333,8 +333,12 @@ def check_built(ck, bcases, bresults):
                 msg = "two ways of building the same logical value encode differently: %s (%s %s) vs %s (%s %s)" % (
                     first[0][:80], first[1]["ctor"], first[1]["ops"], r["enc"][:80], c["ctor"], c["ops"])
         if msg:
-            ck.violation("built %s: %s" % ("call" if c["op"] == "build_call" else "reply", msg),
-                         {"case": pub(c), "impl": r}, tag="b%d" % c["id"])
+            n_bad += 1
+            if n_bad <= 8:
+                ck.violation("built %s: %s" % ("call" if c["op"] == "build_call" else "reply", msg),
+                             {"case": pub(c), "impl": r}, tag="b%d" % c["id"])
+    if n_bad > 8:
+        ck.notes.append("%d built values violate the property (first 8 reported)" % n_bad)
     return n, len(images)
 
 
